@@ -25,9 +25,13 @@ import (
 
 type TaskState int
 
+// maxTasks bounds tasks plus callback timers of one run.
+const maxTasks = 48
+
 const (
 	stRunnable TaskState = iota
 	stDone
+	stTimerWait // a callback timer that has not fired: not schedulable, not part of a deadlock
 )
 
 type Task struct {
@@ -54,6 +58,12 @@ type Task struct {
 	permCalls int // Perm calls within the current op (order.go stream)
 
 	fn func()
+
+	// callback timers (timers.go)
+	timer     bool
+	handle    *time.Timer
+	deadline  time.Time
+	cancelled bool
 }
 
 // Switch is one scheduling decision that differs from "keep running the
@@ -78,6 +88,7 @@ const (
 	EvFinish
 	EvStall
 	EvUnstall
+	EvTimerFire
 )
 
 type Policy struct {
@@ -105,6 +116,9 @@ type Stats struct {
 	SwitchInBuild  int // switch away from a task parked inside a StallSites site
 	OverlapBuild   int // a task entered a StallSites site while another task was parked inside one
 	OnceWaits      int
+	TimersArmed    int
+	TimersFired    int
+	TimerJumps     int // the clock was moved to the next timer deadline because nothing else could run
 	WriterQueued   int // a write Lock() on an RWMutex had to queue (new readers then queue behind it)
 	MaxOpYields    int
 }
@@ -193,6 +207,7 @@ func setActive(s *Sim) { active = s }
 
 func NewSim(seed uint64, pol Policy) *Sim {
 	s := &Sim{rng: NewRng(seed), pol: pol}
+	s.tasks = make([]*Task, 0, maxTasks) // never grows: timers add tasks from //go:norace code
 	if s.pol.MaxYields == 0 {
 		s.pol.MaxYields = 200000
 	}
@@ -355,7 +370,8 @@ func (s *Sim) Run(watchdog time.Duration) {
 	setActive(nil)
 	close(stop)
 	if !s.Deadlock && !s.Capped && !s.nativeBlockedUnsafe() {
-		s.wg.Wait() // real happens-before edge: results written by tasks are now visible
+		s.releaseWaitingTimers() // timers that never fired: their goroutines leave without running anything
+		s.wg.Wait()              // real happens-before edge: results written by tasks are now visible
 	}
 	s.finished = true
 }
@@ -527,7 +543,7 @@ func (s *Sim) finish(t *Task) {
 	if next == nil {
 		// everything done, or deadlock among the rest
 		for _, o := range s.tasks {
-			if o.state != stDone {
+			if o.state == stRunnable {
 				s.Deadlock = true
 			}
 		}
@@ -545,7 +561,7 @@ func (s *Sim) finish(t *Task) {
 func (s *Sim) candidates(buf []*Task) []*Task {
 	buf = buf[:0]
 	for _, o := range s.tasks {
-		if o.state == stDone || o.stalled {
+		if o.state != stRunnable || o.stalled {
 			continue
 		}
 		if o.blocked && o.blockedEpoch == s.unlockEpoch {
@@ -571,7 +587,7 @@ func contains(c []*Task, t *Task) bool {
 //
 //go:norace
 func (s *Sim) pick(t *Task, canStay bool) *Task {
-	var arr [16]*Task
+	var arr [maxTasks]*Task
 	c := s.candidates(arr[:0])
 	if len(c) == 0 {
 		// release stalls before declaring deadlock
@@ -584,6 +600,10 @@ func (s *Sim) pick(t *Task, canStay bool) *Task {
 			}
 		}
 		if released {
+			c = s.candidates(arr[:0])
+		}
+		if len(c) == 0 && s.jumpToNextTimer() {
+			// discrete-event time: nothing is runnable, so the clock moves to the next deadline
 			c = s.candidates(arr[:0])
 		}
 		if len(c) == 0 {
@@ -660,7 +680,7 @@ func (s *Sim) pick(t *Task, canStay bool) *Task {
 		}
 	}
 	// must leave: uniform among candidates other than t if any
-	var others [16]*Task
+	var others [maxTasks]*Task
 	oc := others[:0]
 	for _, o := range c {
 		if o != t {
@@ -694,6 +714,7 @@ func (s *Sim) step(t *Task, site string, kind uint8, blockedNow bool) {
 	}
 	if clockOn {
 		advanceClock(10 * time.Microsecond) // simulated time passes at every yield
+		s.fireDueTimers()
 	}
 	prevSite := t.curSite
 	t.curSite = site
@@ -719,7 +740,7 @@ func (s *Sim) step(t *Task, site string, kind uint8, blockedNow bool) {
 	if inBuild && !(s.InBuild != nil && prevSite != "" && s.InBuild(prevSite)) {
 		// entering the build path: is someone else parked inside it?
 		for _, o := range s.tasks {
-			if o != t && o.state != stDone && o.curSite != "" && s.InBuild(o.curSite) {
+			if o != t && o.state == stRunnable && o.curSite != "" && s.InBuild(o.curSite) {
 				s.Stats.OverlapBuild++
 				break
 			}
@@ -734,7 +755,7 @@ func (s *Sim) step(t *Task, site string, kind uint8, blockedNow bool) {
 		if p > 0 && s.rng.Bool(p) {
 			live := 0
 			for _, o := range s.tasks {
-				if o != t && o.state != stDone {
+				if o != t && o.state == stRunnable && !o.timer {
 					live++
 				}
 			}
